@@ -13,6 +13,10 @@ import os
 import tempfile
 
 import numpy as np
+import warnings
+
+# a tap of power 0 is -inf dB: the library's linear2dB warns (and is right to return -inf)
+warnings.filterwarnings("ignore", message="divide by zero encountered in log10")
 
 from .. import tlc
 from ..core import pool_map
@@ -75,9 +79,11 @@ def record_one(job):
     if rng.rand() < 0.4:
         qd[rng.randint(ntap)] = 4 * rng.randint(0, 10) + 2            # a half-sample tie
     pw = [[int(rng.randint(1, 10)), int(rng.randint(1, 10))] for _ in range(ntap)]
+    if ntap > 1 and rng.rand() < 0.2:
+        pw[rng.randint(ntap)] = [0, 1]                                  # a tap of power 0 (-inf dB)
     prof = [[int(q), p] for q, p in zip(qd, pw)]
     ts = 2.0 ** -int([0, 10, 20, 25][rng.randint(4)])
-    dB = np.array([10 * np.log10(p[0] / p[1]) for p in pw])
+    dB = np.array([10 * np.log10(p[0] / p[1]) if p[0] else -np.inf for p in pw])
     delays = qd / 4.0 * ts
     nr, nt = ant
     shape = None if nr == 0 else (nr, nt)
@@ -88,7 +94,9 @@ def record_one(job):
         gen = _logging(fading_generators.RayleighSampleGenerator)(shape=shape)
     registry = []
     gen.registry = registry
-    pls = [[[[1, 2] for _ in range(users[1])] for _ in range(users[0])], [[[3, 5] for _ in range(users[1])] for _ in range(users[0])]]
+    # amplitudes 1/2 everywhere; identity (cross links blocked: path loss exactly 0; a single link: 0)
+    pls = [[[[1, 2] for _ in range(users[1])] for _ in range(users[0])],
+           [[[1, 1] if (r == t and users != (1, 1)) else [0, 1] for t in range(users[1])] for r in range(users[0])]]
     try:
         if kind == "tdl":
             ch = fading.TdlChannel(gen, tap_powers_dB=dB, tap_delays=delays, Ts=ts)
